@@ -62,7 +62,7 @@ def gen_config(d: Draw, prop):
     if d.chance(1, 4):
         # the world's configuration itself carries an orbit (loaded when the world joins the orbit)
         cfg['config_orbit'] = d.pick(['period', 'axis_m', 'axis_au'])
-    if d.chance(1, 4):
+    if d.chance(1, 4) or (prop == 'C17' and d.chance(1, 3)):
         # a second tidal body shares the orbit (updates of the two bodies interleave)
         cfg['n_bodies'] = 2 if (prop != 'C17' or d.chance(2, 3)) else 3
         cfg['sync2'] = d.chance(1, 2)
@@ -131,13 +131,13 @@ def gen_set_states(d: Draw, cfg):
 
 
 def gen_op(d: Draw, cfg, prop):
-    if prop == 'C17' and cfg.get('n_bodies', 1) >= 2 and d.chance(1, 12):
+    if prop == 'C17' and cfg.get('n_bodies', 1) >= 2 and d.chance(1, 8):
         # which body's orbit the host's signature addresses (C17 only: for C13 the reference model of the host's own tides
         # would have to follow the switch, which the property does not speak about)
         return {'op': 'o.set_host_tide_raiser', 'body': d.below(cfg['n_bodies']), 'sig': d.pick(['instance', 'name', 'index'])}
     if cfg.get('host_tides') and prop == 'C13' and d.chance(1, 5):
         return gen_host_op(d, cfg)
-    if cfg['host'] == 'giant' and d.chance(1, 8):
+    if d.chance(1, 8 if cfg.get('n_bodies', 1) < 2 else 5):
         return gen_host_orbit_op(d, cfg)
     if d.chance(1, 10 if cfg.get('n_bodies', 1) < 2 else 5):
         return gen_set_states(d, cfg)
